@@ -582,26 +582,33 @@ def r_bisect(ctx: RuleCtx, col: Collector):
         if cand is None or upd is None:
             raise AnalysisError("minimize_oc: bisection candidate / bracket update not recognised")
         # the bracket is re-initialised from the caller's initial values in every outer iteration
-        inits = []
         par = getattr(lp, "_parent", None)
         sibs = par.body if par is not None and hasattr(par, "body") else []
-        for st in sibs[:sibs.index(lp)] if lp in sibs else []:
-            if isinstance(st, ast.Assign) and isinstance(st.targets[0], ast.Tuple) and {norm(x) for x in st.targets[0].elts} == {lo, hi}:
-                inits.append(st)
-        if inits:
-            st = inits[-1]
-            vals = dict(zip([norm(x) for x in st.targets[0].elts], st.value.elts if isinstance(st.value, ast.Tuple) else []))
+        before = sibs[:sibs.index(lp)] if lp in sibs else []
+        vals: Dict[str, ast.AST] = {}
+        where_init = None
+        for st in before:        # the last assignment of each end of the bracket in front of the loop (either form)
+            if isinstance(st, ast.Assign):
+                t = st.targets[0]
+                pairs = list(zip(t.elts, st.value.elts)) if isinstance(t, ast.Tuple) and isinstance(st.value, ast.Tuple) and \
+                    len(t.elts) == len(st.value.elts) else [(t, st.value)]
+                for a, v in pairs:
+                    if norm(a) in (lo, hi):
+                        vals[norm(a)] = v
+                        where_init = st
+        if len(vals) == 2:
+            st = where_init
             params = set(oc.pos_params()) | set(oc.kwonly())
-            okinit = all(isinstance(v, ast.Name) and v.id in params for v in vals.values()) and len(vals) == 2
+            okinit = all(isinstance(v, ast.Name) and v.id in params for v in vals.values())
             if okinit:
-                col.ok(where_of(oc), oc.rel, line_of(st), "bisection bracket initialised from the caller's bracket", stmt_key(st))
+                col.ok(where_of(oc), oc.rel, line_of(st), "bisection bracket initialised from the caller's bracket",
+                       ", ".join(f"{k} = {norm(v)}" for k, v in sorted(vals.items())))
             else:
                 col.bad(where_of(oc), oc.rel, line_of(st), "bisection bracket initialised from the caller's bracket",
-                        f"'{stmt_key(st)}' does not start the bisection from the caller's full bracket: a multiplier outside "
-                        f"the narrowed bracket cannot be found and the volume target is missed")
+                        f"'{', '.join(f'{k} = {norm(v)}' for k, v in sorted(vals.items()))}' does not start the bisection from the "
+                        f"caller's full bracket: a multiplier outside the narrowed bracket cannot be found and the volume target is missed")
         else:
-            col.bad(where_of(oc), oc.rel, line_of(lp), "bisection bracket initialised from the caller's bracket",
-                    "the bracket is not (re-)initialised directly before the bisection loop")
+            raise AnalysisError("minimize_oc: initialisation of the bisection bracket in front of the loop not recognised")
         assume: List[str] = []
         signs = {mid: 1}
         assume.append(f"the multiplier {mid} is positive (bracket starts at non-negative values)")
